@@ -4,6 +4,9 @@
 struct ICache {
   virtual bool insert(uint64_t id) = 0;   // false: the cache refused, the caller keeps the value
   virtual uint64_t get() = 0;             // 0: nothing cached
+  // shared variant only (hook): raw head (version counter, index) of the data (0) / free (1) list, successor of a record
+  virtual void head(int which, unsigned long long& counter, unsigned long long& index) { counter = 0; index = 0; (void)which; }
+  virtual unsigned long long next(unsigned long long index) { return index; }
   virtual ~ICache() {}
 };
 ICache* make_shared_cache(int capacity);  // Cache.h without SQUIDS_THREAD_LOCAL: one cache shared by all threads
